@@ -125,8 +125,13 @@ pub fn random_script(corpus: &[String], rng: &mut Rng) -> Script {
         }
         match rng.below(10) {
             0..=3 => {
-                cmds.push(Cmd::GoDepth(1 + rng.below(4) as u8));
-                match rng.below(4) {
+                let d = 1 + rng.below(4) as u8;
+                let follow = rng.below(4);
+                // `wait` blocks the command loop until the search ends by itself: only after
+                // shallow searches, which are quick everywhere (a depth-4 search can take minutes
+                // in a tactical middlegame and nothing could be concluded from the silence)
+                cmds.push(Cmd::GoDepth(if follow == 0 { d.min(2) } else { d }));
+                match follow {
                     0 => cmds.push(Cmd::Wait),
                     1 => {
                         cmds.push(Cmd::IsReady);
@@ -235,6 +240,7 @@ fn report_session(out: &mut Out, prop: &str, name: &str, script: &Script, res: &
     if res.exit_code == Some(0) {
         out.add("clean_exits", 1);
     }
+    out.add("slow_depth_limited_searches_ended_by_stop", res.slow.len() as u64);
     let tail = |n: usize| {
         let t = &res.transcript;
         t[t.len().saturating_sub(n)..].to_vec()
@@ -1484,6 +1490,7 @@ fn c19_run(lines: &[String], wrapper: &[String], envs: &[(String, String)]) -> R
     s.send_bulk(&text);
     match s.wait_exit(Duration::from_secs(240)) {
         Some(st) if st.success() => {}
+        None => return Err(format!("SLOW: the script did not finish within 240 s: {}", s.stderr_text())),
         other => return Err(format!("engine ended with {other:?}: {}", s.stderr_text())),
     }
     let out = s.stdout_lines();
@@ -1526,6 +1533,13 @@ pub fn worker_c19(shard: usize, _nshards: usize, seed: u64, tier: &str, out: &mu
         let base_script = c19_script(&root, depth, &[]);
         let base = match c19_run(&base_script, &[], &[]) {
             Ok(b) => b,
+            Err(e) if e.starts_with("SLOW") => {
+                // a depth-limited search may legitimately take minutes on a tactical root
+                out.add("reference_runs_too_slow_to_use", 1);
+                out.note(&format!("reference run of {} at depth {depth} skipped: {e}", root.json()));
+                out.end();
+                continue;
+            }
             Err(e) => {
                 out.viol("C19", &format!("C19|run|{}", root.key()), &format!("reference run failed: {e}"), case.clone());
                 out.end();
